@@ -247,15 +247,22 @@ def eval_expr(node: ast.AST, env: Dict[str, Any]) -> Any:
                 raise _Raised(f"{type(error).__name__}: {error}")
         raise Unknown(norm(node))
     if isinstance(node, (ast.GeneratorExp, ast.ListComp, ast.SetComp)):
-        if len(node.generators) != 1:
-            raise Unknown(norm(node))
-        gen = node.generators[0]
         out = []
-        for item in eval_expr(gen.iter, env):
-            local = dict(env)
-            _bind(gen.target, item, local)
-            if all(eval_expr(c, local) for c in gen.ifs):
+
+        def gen_loop(i: int, local: Dict[str, Any]) -> None:
+            if i == len(node.generators):
                 out.append(eval_expr(node.elt, local))
+                return
+            gen = node.generators[i]
+            if gen.is_async:
+                raise Unknown(norm(node))
+            for item in eval_expr(gen.iter, local):
+                inner = dict(local)
+                _bind(gen.target, item, inner)
+                if all(eval_expr(c, inner) for c in gen.ifs):
+                    gen_loop(i + 1, inner)
+
+        gen_loop(0, dict(env))
         return set(out) if isinstance(node, ast.SetComp) else out
     raise Unknown(norm(node))
 
@@ -354,7 +361,7 @@ def eval_function(func: ast.AST, env: Dict[str, Any], depth: int = 0, want_env: 
                 lst = list(local[s.value.func.value.id])
                 lst.append(arg) if s.value.func.attr == "append" else lst.extend(arg)
                 local[s.value.func.value.id] = lst
-            elif isinstance(s, (ast.Pass, ast.Nonlocal, ast.Global)):
+            elif isinstance(s, (ast.Pass, ast.Nonlocal, ast.Global, ast.Import, ast.ImportFrom)):
                 continue
             elif isinstance(s, ast.Raise):
                 raise _Raised(norm(s.exc) if s.exc is not None else "raise")
